@@ -1035,7 +1035,7 @@ class CliTable:
         return [(name[:i], self.resolve(name[:i])) for i in range(1, len(name) + 1)]
 
 
-CLI_GOOD = {"CInt": ["1", "80", " 7 ", "5_0", "65535"], "COctal": ["600", "0o644", "7"], "CStr": ["h", "a b", "::1", "*", "127.0.0.1", "/tmp/s"],
+CLI_GOOD = {"CInt": ["1", "80", " 7 ", "5_0", "65535"], "COctal": ["600", "0o644", "7"], "CStr": ["h", "a b", "::1", "*", "127.0.0.1", "/tmp/s", "HTTPS", "Ab.C"],
             "CStrIfTruthy": ["1.2.3.4", "*", "x"], "CSlash": ["/a/", "b", "//c//"], "CSet": ["forwarded", "x-forwarded-for X-Forwarded-By", "X-FORWARDED-PROTO"],
             "CList": ["a:1", "a:1 b:2", "*:80", "c:3\nd:4", " [::1]:9 ", "127.0.0.1:8080"], "CSockets": ["x"]}
 CLI_ODD = {"CInt": ["x", "-1", "1.0", "0x1", "+-2", "--3", "=4"], "COctal": ["9", "8", "0b1", "-x"], "CStr": ["-x", "--y", "a=b", "=", "é"],
